@@ -495,6 +495,9 @@ class DrawCircuitSVG:
         Add a barrier which will separate different parts of the circuit. This
         is applied to the provided modes.
         """
+        # Skip any empty elements
+        if not spec.modes:
+            return
         max_loc = max(self.x_locations[m] for m in spec.modes)
         for m in spec.modes:
             loc = self.x_locations[m]
